@@ -174,6 +174,49 @@ func universal(sc *Scn, x *vrt.Sched, w *World) []Finding {
 				}
 			}
 		}
+		// C03: a client has been sent an answer that no handler wrote although the scenario has a route for
+		// every request: gldap answered in the handler's place
+		if hasProp(sc, "C03") && !sp.Srv.NoDefaultRoute {
+			for _, c := range w.Clients {
+				ci := clientIndex(sp, c.Name)
+				if ci < 0 || c.C == nil {
+					continue
+				}
+				frames, _, ferr := codec.Frames(append(append([]byte(nil), c.Got...), c.C.PendingBytes()...))
+				if ferr != nil {
+					continue
+				}
+				for _, f := range frames {
+					r, err := codec.ParseResponse(f)
+					if err != nil || r.MsgID == 0 {
+						continue
+					}
+					mine := false
+					for _, wr := range w.Writes {
+						if bytes.Equal(wr.Frame, f) {
+							mine = true
+						}
+					}
+					if !mine {
+						addOnce("C03", "gldap itself answers a request for which a route exists: the request is never passed to a handler; "+key, fmt.Sprintf("client %s received an answer to message %d (result code %d) that no handler wrote", c.Name, r.MsgID, r.Code))
+					}
+				}
+			}
+		}
+		// C10: Stop waits for a connection on which an Unbind was read and which is still open
+		if stopBlocked && hasProp(sc, "C10") {
+			for _, n := range vnet.OpenServerEndpoints() {
+				ci := clientIndex(sp, strings.TrimSuffix(n, ".server"))
+				if ci >= 0 && (hasOp(sp.Conns[ci].Ops, "unbind") || hasOp(sp.Conns[ci].Ops, "unbind0")) && w.UnbindRan+w.Notes["unbind-read"] >= 0 {
+					for _, l := range x.Log {
+						if strings.HasPrefix(l, "h-unbind") || sp.Srv.NoUnbindRoute {
+							addOnce("C10", "after an Unbind the connection is never closed; "+key, fmt.Sprintf("%s still open; %s", n, blocked))
+							break
+						}
+					}
+				}
+			}
+		}
 		// C17: Stop has not been called and a client waits for the server for ever
 		if !stopBlocked && hasProp(sc, "C17") && !strings.Contains(blocked, "stopper") {
 			for _, b := range x.Blocked {
@@ -253,6 +296,9 @@ func universal(sc *Scn, x *vrt.Sched, w *World) []Finding {
 		if open := vnet.OpenServerEndpoints(); len(open) > 0 {
 			sort.Strings(open)
 			add("C08", "a server-side socket is still open at the end", fmt.Sprintf("%v; log: %v", open, x.Log))
+			if w.RunDone {
+				add("C12", "Stop and Run have returned although an accepted connection is still open (its socket was never closed)", fmt.Sprintf("%v; log: %v", open, x.Log))
+			}
 			if hasProp(sc, "C07") {
 				add("C07", "the socket of a connection that had a fault is never closed (one descriptor leaked per fault: accept eventually fails)", fmt.Sprintf("%v; log: %v", open, x.Log))
 			}
@@ -417,7 +463,7 @@ func universal(sc *Scn, x *vrt.Sched, w *World) []Finding {
 			continue // Stop may have come before the request was read
 		}
 		for k, op := range cs.Ops {
-			if isUnbind(op) || op == "garbage" || op == "compare" || op == "starttls-silent" || op == "starttls-badhello" || op == "starttls-badhello-alert" || op == "tls-closewrite" {
+			if isUnbind(op) || op == "garbage" || op == "bind-badcontrol" || op == "compare" || op == "starttls-silent" || op == "starttls-badhello" || op == "starttls-badhello-alert" || op == "tls-closewrite" {
 				break
 			}
 			if h := cs.H[k+1]; h != nil && h.Panic != "" {
@@ -456,7 +502,7 @@ func universal(sc *Scn, x *vrt.Sched, w *World) []Finding {
 				continue
 			}
 			op := cs.Ops[k-1]
-			if isUnbind(op) || op == "garbage" || op == "compare" || strings.HasPrefix(op, "starttls") || op == "tls-closewrite" {
+			if isUnbind(op) || op == "garbage" || op == "bind-badcontrol" || op == "compare" || strings.HasPrefix(op, "starttls") || op == "tls-closewrite" {
 				continue
 			}
 			if h := cs.H[k]; h != nil && h.Panic != "" {
